@@ -60,6 +60,10 @@ var c15Progs = []c15Prog{
 	{"error-in-rule", `{ s += 1 / (25 - NR); print s }`, c15Input(40)},
 	{"error-in-end", `{ n++ } END { for (i = 0; i < 50; i++) s += i; print s; x = 1 / (n - 20) }`, c15Input(20)},
 	{"error-in-forin", `BEGIN { for (i = 0; i < 30; i++) a[i] = 15 - i; for (k in a) s += 1 / a[k]; print s }`, ""},
+	// long runs: cancellation late in a run (hundreds of thousands of steps in), in a loop, in nested calls and in END
+	{"long-while", `BEGIN { while (i < 250000) i++; print "done", i }`, ""},
+	{"long-calls", `function f(n) { return g(n) + 1 } function g(n) { return n * 2 } BEGIN { for (i = 0; i < 60000; i++) s += f(i); print s }`, ""},
+	{"long-end", `{ n++ } END { for (i = 0; i < 200000; i++) s += i; print n, s }`, c15Input(5)},
 	{"exit-in-loop", `BEGIN { for (i = 0; ; i++) if (i > 2500) exit 4 } END { for (j = 0; j < 1500; j++) t += j; print t }`, ""},
 }
 
@@ -232,6 +236,14 @@ func c15Points(total int, thorough bool) []int {
 		for k := 3000; k <= total && k <= 40000; k += 61 {
 			add(k)
 		}
+	}
+	// late points of long runs
+	late := 49999
+	if thorough {
+		late = 9973
+	}
+	for k := 40000 + late; k <= total; k += late {
+		add(k)
 	}
 	for k := total - 40; k <= total+1; k++ {
 		add(k)
@@ -698,7 +710,7 @@ func init() {
 	core.Register(&core.Check{
 		ID:    "C15",
 		Level: "model_checking",
-		Rule: "deviation-bounded environment exploration: for 19 programs (tight loop, nested calls, recursion, for-in, main-loop rules, END loop, pending printf output, getline loop, exit after loops, runtime error in BEGIN / function / rule / END / for-in body) the context is cancelled before VM step k for every k<=300 + every 7th k<=3000 + every 61st up to the end (thorough: every k<=3000 + every 7th), with unbuffered and bufio-wrapped output (every third point on a context with a recorded cause), plus pre-cancelled and expired contexts with and without a cause: the error returned is ctx.Err() itself; every 9th (thorough 3rd) of these points again on a reused Interpreter whose earlier run completed under another context that is still live / under a context cancelled afterwards / through plain Execute; " +
+		Rule: "deviation-bounded environment exploration: for 22 programs (tight loop, three long runs of 0.7-1.2 million steps cancelled every ~50000 (thorough ~10000) steps, nested calls, recursion, for-in, main-loop rules, END loop, pending printf output, getline loop, exit after loops, runtime error in BEGIN / function / rule / END / for-in body) the context is cancelled before VM step k for every k<=300 + every 7th k<=3000 + every 61st up to the end (thorough: every k<=3000 + every 7th), with unbuffered and bufio-wrapped output (every third point on a context with a recorded cause), plus pre-cancelled and expired contexts with and without a cause: the error returned is ctx.Err() itself; every 9th (thorough 3rd) of these points again on a reused Interpreter whose earlier run completed under another context that is still live / under a context cancelled afterwards / through plain Execute; " +
 			"for 8 programs waiting on child processes (system, cmd|getline, print|cmd+close, inside a function/loop, in END, a killed shell whose descendant keeps the output pipe open) every placement of the cancel among the scheduling points of the virtual process world up to 2 (thorough 3) deviations; 8 record-driven programs (bare regex patterns matching / not matching, negated, expression, range, several rules) on 6000 records delivered one per Read, cancelled before the call or at record 0/1/10/2000: records consumed after the cancellation <= the same allowance; never-cancelled ExecuteContext vs Execute on the C01 misc/builtins/calls/control program space and on 9 programs with child processes in the virtual world; " +
 			"state = one program, transition = one execution; distinct = distinct (program, steps-after-cancel bucket, result)",
 		Assumptions: []string{
